@@ -145,9 +145,14 @@ func (db *DB) Compact() (CompactionResult, error) {
 		db.maintenanceMu.Unlock()
 	}()
 
-	db.mu.RLock()
+	db.mu.Lock()
 	segments := db.pickForCompaction()
-	db.mu.RUnlock()
+	// Seal the picked segments now: a delete record written to a picked segment after this
+	// point would be discarded without the older segments having been compacted.
+	for _, seg := range segments {
+		seg.meta.Full = true
+	}
+	db.mu.Unlock()
 
 	for _, seg := range segments {
 		segcr, err := db.compact(seg)
